@@ -30,39 +30,38 @@ package main
 //@   modifies libWriter, libFailed, libCalls, lastConfig, lastForest, lnNodes, Node.children, Node.parent, Node.brnch.value, Node.brnch.path, list.List.view, list.Element.backOf, counter.n, bufio.Scanner.pos, bufio.Scanner.failed, markdown.Parser.isSharpRoot, markdown.Parser.spaces, markdown.Parser.sep, out, wfail, defaultSpreaderSimple.w, encTrace, encoders, rsRoots, rsFailed, rsStopped, rsErr, gsRoots, gsFailed, gsStopped, gsErr, spRoots, spText, esFailed
 //@   ensures direct [C16]: libWriter == os.Stdout
 //@   ensures pub [C16]: libCalls == old(libCalls) + 1 && libFailed == (old(libFailed) || result != nil)
+//@   ensures wired [C16]: lastConfig.strictVerify == gtree.specHasOpt(options, gtree.optKStrict, len(options)) && lastConfig.massive == gtree.specHasOpt(options, gtree.optKMassive, len(options)) && lastConfig.targetDir == gtree.specLastOptStr(options, gtree.optKTarget, len(options), ".") && lastConfig.dryrun == gtree.specHasOpt(options, gtree.optKDry, len(options))
 //@ func main.outputWithValidation
+//@   use lemma gtree.lemmaHasOptPrefix, gtree.lemmaLastOptStrPrefix
 //@   modifies libWriter, libFailed, libCalls, lastConfig, lastForest, lnNodes, Node.children, Node.parent, Node.brnch.value, Node.brnch.path, list.List.view, list.Element.backOf, counter.n, bufio.Scanner.pos, bufio.Scanner.failed, markdown.Parser.isSharpRoot, markdown.Parser.spaces, markdown.Parser.sep, out, wfail, defaultSpreaderSimple.w, encTrace, encoders, rsRoots, rsFailed, rsStopped, rsErr, gsRoots, gsFailed, gsStopped, gsErr, spRoots, spText, esFailed
 //@   ensures direct [C16]: libWriter == color.Output
 //@   ensures pub [C16]: libCalls == old(libCalls) + 1 && libFailed == (old(libFailed) || result != nil)
+//@   ensures wired [C16]: lastConfig.strictVerify == gtree.specHasOpt(options, gtree.optKStrict, len(options)) && lastConfig.massive == gtree.specHasOpt(options, gtree.optKMassive, len(options)) && lastConfig.targetDir == gtree.specLastOptStr(options, gtree.optKTarget, len(options), ".") && lastConfig.dryrun
 //@ func main.mkdir
 //@   modifies libFailed, libCalls, lastConfig, lastForest, lnNodes, Node.children, Node.parent, Node.brnch.value, Node.brnch.path, list.List.view, list.Element.backOf, counter.n, bufio.Scanner.pos, bufio.Scanner.failed, markdown.Parser.isSharpRoot, markdown.Parser.spaces, markdown.Parser.sep, fsOps, fsFailed, defaultGrowerSimple.enabledValidation
 //@   ensures pub [C16]: libCalls == old(libCalls) + 1 && libFailed == (old(libFailed) || result != nil)
+//@   ensures wired [C16]: lastConfig.strictVerify == gtree.specHasOpt(options, gtree.optKStrict, len(options)) && lastConfig.massive == gtree.specHasOpt(options, gtree.optKMassive, len(options)) && lastConfig.targetDir == gtree.specLastOptStr(options, gtree.optKTarget, len(options), ".") && lastConfig.dryrun == gtree.specHasOpt(options, gtree.optKDry, len(options))
 //@ func main.verify
 //@   modifies libFailed, libCalls, lastConfig, lastForest, lnNodes, Node.children, Node.parent, Node.brnch.value, Node.brnch.path, list.List.view, list.Element.backOf, counter.n, bufio.Scanner.pos, bufio.Scanner.failed, markdown.Parser.isSharpRoot, markdown.Parser.spaces, markdown.Parser.sep, defaultGrowerSimple.enabledValidation, maps
 //@   ensures pub [C16]: libCalls == old(libCalls) + 1 && libFailed == (old(libFailed) || result != nil)
+//@   ensures wired [C16]: lastConfig.strictVerify == gtree.specHasOpt(options, gtree.optKStrict, len(options)) && lastConfig.massive == gtree.specHasOpt(options, gtree.optKMassive, len(options)) && lastConfig.targetDir == gtree.specLastOptStr(options, gtree.optKTarget, len(options), ".") && lastConfig.dryrun == gtree.specHasOpt(options, gtree.optKDry, len(options))
 // outputContinuously (--watch: a ticker loop that only ends on an error) is not under contract
 //@ func main.outputContinuously
 //@   assumed
 //@   modifies libWriter, libFailed, libCalls, lastConfig, lastForest, lnNodes, out, wfail
 //@   ensures loops: result != nil
 
-// the option constructors of the library return function values; nothing about them is needed here
-//@ contract optionCtor
-//@   assumed
-//@   pure
-//@ applies optionCtor to gtree.WithMassive, gtree.WithEncodeJSON, gtree.WithEncodeYAML, gtree.WithEncodeTOML, gtree.WithTargetDir, gtree.WithFileExtensions, gtree.WithStrictVerify, gtree.WithDryRun
-
 //@ func main.optionOutput
 //@   requires nn: c != nil
 //@   ensures known [C16]: result1 == nil ==> ctxString(c, "format") == "json" || ctxString(c, "format") == "yaml" || ctxString(c, "format") == "toml" || ctxString(c, "format") == ""
 //@   ensures unknown [C16]: !(ctxString(c, "format") == "json" || ctxString(c, "format") == "yaml" || ctxString(c, "format") == "toml" || ctxString(c, "format") == "") ==> result1 != nil
 
-//@ contract actionStatus
+//@ func main.actionVerify
 //@   requires nn: c != nil
-//@   modifies libWriter, libFailed, libCalls, lastConfig, lastForest, lnNodes, fsFailed, fsOps, Node.children, Node.parent, Node.brnch.value, Node.brnch.path, list.List.view, list.Element.backOf, counter.n, bufio.Scanner.pos, bufio.Scanner.failed, markdown.Parser.isSharpRoot, markdown.Parser.spaces, markdown.Parser.sep, out, wfail, defaultSpreaderSimple.w, encTrace, encoders, rsRoots, rsFailed, rsStopped, rsErr, gsRoots, gsFailed, gsStopped, gsErr, spRoots, spText, esFailed, defaultGrowerSimple.enabledValidation, maps
+//@   modifies libWriter, libFailed, libCalls, lastConfig, lastForest, lnNodes, fsFailed, fsOps, Node.children, Node.parent, Node.brnch.value, Node.brnch.path, list.List.view, list.Element.backOf, counter.n, bufio.Scanner.pos, bufio.Scanner.failed, markdown.Parser.isSharpRoot, markdown.Parser.spaces, markdown.Parser.sep, out, wfail, defaultSpreaderSimple.w, encTrace, encoders, lnNodes, rsRoots, rsFailed, rsStopped, rsErr, gsRoots, gsFailed, gsStopped, gsErr, spRoots, spText, esFailed, defaultGrowerSimple.enabledValidation, maps
 //@   ensures coder [C16]: result != nil ==> isExitCoder(result) && exitCodeOf(result) != 0
 //@   ensures truthful [C16]: result == nil ==> libFailed == old(libFailed)
-//@ applies actionStatus to main.actionVerify
+//@   ensures wired [C16]: libCalls == old(libCalls) + 1 ==> lastConfig.strictVerify == ctxBool(c, "strict") && lastConfig.targetDir == ctxString(c, "target-dir") && !lastConfig.massive && !lastConfig.dryrun
 // mkdir: in addition, --dry-run must not reach the file system (it is routed to the library's Output with WithDryRun)
 //@ func main.actionMkdir
 //@   requires nn: c != nil
@@ -70,6 +69,7 @@ package main
 //@   ensures coder [C16]: result != nil ==> isExitCoder(result) && exitCodeOf(result) != 0
 //@   ensures truthful [C16]: result == nil ==> libFailed == old(libFailed)
 //@   ensures dryfs [C16,C09]: ctxBool(c, "dry-run") ==> fsOps == old(fsOps)
+//@   ensures wired [C16]: libCalls == old(libCalls) + 1 ==> lastConfig.targetDir == ctxString(c, "target-dir") && lastConfig.massive == ctxBool(c, "massive") && lastConfig.dryrun == ctxBool(c, "dry-run") && !lastConfig.strictVerify
 // output and verify never reach the file system
 //@ func main.actionOutput
 //@   requires nn: c != nil
